@@ -227,6 +227,39 @@ impl PPRF for GGM {
   }
 }
 
+/// Read-only observation points for external verification tooling.
+/// Compiled only with the (off by default) `verif-hooks` feature.
+#[cfg(feature = "verif-hooks")]
+impl GGM {
+  /// Every tree node retained by the key: (prefix bits, seed).
+  pub fn verif_retained_nodes(&self) -> Vec<(Vec<bool>, Vec<u8>)> {
+    self
+      .key
+      .prefixes
+      .iter()
+      .map(|(p, s)| (p.bits.iter().map(|b| *b).collect(), s.clone()))
+      .collect()
+  }
+
+  /// The inputs recorded as punctured, as bit strings.
+  pub fn verif_punctured(&self) -> Vec<Vec<bool>> {
+    self
+      .key
+      .punctured
+      .iter()
+      .map(|p| p.bits.iter().map(|b| *b).collect())
+      .collect()
+  }
+
+  /// One half of the length-doubling PRG: the seed of the `bit` child
+  /// of a node whose seed is `input`.
+  pub fn verif_prg(&self, bit: bool, input: &[u8]) -> [u8; 32] {
+    let mut out = [0u8; 32];
+    self.key.prgs[bit as usize].eval(input, &mut out);
+    out
+  }
+}
+
 fn sample_secret() -> Vec<u8> {
   let mut out = vec![0u8; 32];
   OsRng.fill(out.as_mut_slice());
